@@ -143,6 +143,14 @@ func FuncName(f interface{}) string {
 	return n
 }
 
+// MapOrder selects how the engine orders every following range-over-map: 0 insertion order,
+// 1 all reversed, 2 all rotated by one, 3/4 reversed/rotated only at the site-th range executed
+// after this call. Natively Go's own randomised order applies (no-op).
+func MapOrder(mode, site int) {}
+
+// MapSites returns the number of range-over-map statements executed since the last MapOrder call (0 natively).
+func MapSites() int { return 0 }
+
 // TypeOf returns the dynamic type of x as fmt's %T prints it.
 func TypeOf(x interface{}) string { return fmt.Sprintf("%T", x) }
 
